@@ -245,6 +245,7 @@ def _(case):
     return [V], lambda a: PU.incomplete_valuation_profile_to_complete_valuation_profile(PU.ValuationProfile.of(a[0]))
 
 class C20(Prop):
+    translators = ['posgraph']   # regenerated from the source on every run (harness/translate.py)
     pid = "C20"
     sources = ["socialchoicekit/bistochastic.py", "socialchoicekit/randomized_allocation.py", "socialchoicekit/deterministic_matching.py", "socialchoicekit/profile_utils.py",
                "socialchoicekit/elicitation_allocation.py", "socialchoicekit/flow.py"]
